@@ -6,6 +6,25 @@ def histGrowFactor : Nat := 2
 def heunCopiesRhs : Bool := true
 /-- BaseBackend.run builds `times` as np.arange(n)*step (true) or as linspace(0,T,n,endpoint=False)/unknown (false) -/
 def timeAxisIsArange : Bool := true
+structure BackendT where
+  name : String
+  supported : List String
+  validatesFirst : Bool
+  branches : List (String × String)   -- explicitly tested solver name ↦ what the returned method implements
+  fallthrough : String                -- what the final return implements; "super" = delegates to the base class
+  hasOwnSolve : Bool
+  sparseJac : Bool
+  edgeDelayBuffer : Bool
+deriving Repr, DecidableEq
+def backends : List BackendT := [{ name := "base", supported := ["euler", "heun", "scipy"], validatesFirst := true, branches := [("euler", "euler"), ("heun", "heun"), ("?len(args)>0andisinstance(args[0],DDEHistory)", "scipy")], fallthrough := "scipy", hasOwnSolve := true, sparseJac := true, edgeDelayBuffer := true },
+  { name := "torch", supported := ["euler", "scipy"], validatesFirst := false, branches := [], fallthrough := "super", hasOwnSolve := false, sparseJac := true, edgeDelayBuffer := true },
+  { name := "jax", supported := ["euler", "heun", "scipy", "diffrax"], validatesFirst := true, branches := [("diffrax", "diffrax"), ("scipy", "scipy"), ("euler", "euler")], fallthrough := "heun", hasOwnSolve := true, sparseJac := false, edgeDelayBuffer := false },
+  { name := "fortran", supported := ["euler", "heun", "scipy"], validatesFirst := true, branches := [], fallthrough := "super", hasOwnSolve := true, sparseJac := true, edgeDelayBuffer := true },
+  { name := "julia", supported := ["euler", "heun", "scipy", "julia_ode", "julia_dde"], validatesFirst := true, branches := [("?'julia'insolver", "?")], fallthrough := "?results", hasOwnSolve := true, sparseJac := true, edgeDelayBuffer := true },
+  { name := "matlab", supported := ["euler", "heun", "scipy"], validatesFirst := true, branches := [], fallthrough := "super", hasOwnSolve := true, sparseJac := true, edgeDelayBuffer := true }]
+def vectorizeForbiddenBackends : List String := ["fortran"]
+def disallowedNames : List String := ["y", "dy", "source_idx", "target_idx", "pi", "I", "E", "S", "Q", "O", "N", "oo", "zoo", "nan", "beta", "gamma", "Beta", "Gamma", "exp", "log", "sin", "cos", "tan", "cot", "sec", "csc", "sinh", "cosh", "tanh", "sqrt", "abs"]
+def disallowedNameParts : List String := ["_buffer", "_delays", "_maxdelay", "_idx", "_hist"]
 def opCacheKeyIncludesDefinition : Bool := true
 def irCachesResetAtApply : Bool := true
 def replaceAllowedFollowOps : String := "-+=*/^<>=!.%@[]():, '"
